@@ -158,8 +158,12 @@ PAGE = [None, "1 (each continuation preceded by an empty page with a marker)", 2
 
 
 def tmpl_steps_wait_child(a, b, c, _flag):
+    def setup(be):
+        be.input_payload = X.json.dumps({"k": 5})
+
     def mk(obs):
         def handler(event, ctx):
+            obs.see("EVENT", "value", event)     # the handler's input is part of what a deterministic workflow branches on
             x = observe(obs, "A", lambda: ctx.step(lambda s: a, name="A"))
             ctx.wait(Duration(5), name="W")
 
@@ -170,7 +174,7 @@ def tmpl_steps_wait_child(a, b, c, _flag):
             y = observe(obs, "CH", lambda: ctx.run_in_child_context(child, name="CH"))
             return [x[1], y[1]]
         return handler
-    return mk, None
+    return mk, setup
 
 
 def tmpl_failures_caught(g, _b, _c, empty_msg):
